@@ -95,10 +95,12 @@ func decodeWithContext(
 		// DecodeError use the opaque type.
 		return nil
 	}
-	if len(m.Tags) == 0 && len(redactedTags) == 0 {
+	if len(m.Tags) == 0 {
 		// There are no tags stored. Either there are no tags stored, or
 		// we received some new version of the protobuf message which does
-		// things differently. Again, use the opaque type.
+		// things differently. Again, use the opaque type. (A withContext
+		// without a tag buffer cannot be inspected, formatted or
+		// re-encoded; the opaque type preserves the redacted tags.)
 		return nil
 	}
 	// Convert the k/v pairs.
